@@ -24,6 +24,11 @@ BUDGET = {'quick': 4000, 'thorough': 8000}
 LAY = c09.SMALL_LAYOUT
 
 
+def _layout(n):
+    return {'zero_mode': True, 'share': None,
+            'tables': dict((k, {'shape': 'seq', 'start': 0, 'values': [False if k in 'cd' else 0] * n}) for k in 'cdhi')}
+
+
 @st.composite
 def _req(draw):
     fc = draw(st.sampled_from([5, 6, 15, 16, 22, 23, 6, 16, 1, 3]))
@@ -59,7 +64,9 @@ def _case(draw):
         k, f = draw(_req())
         steps.append({'uid': uid, 'kind': k, 'fields': f})
     return {'frontend': fe, 'framing': framing, 'single': single, 'hosted': hosted,
-            'ignore_missing_slaves': draw(st.booleans()), 'broadcast_enable': bcast, 'steps': steps}
+            'ignore_missing_slaves': draw(st.booleans()), 'broadcast_enable': bcast, 'steps': steps,
+            # units may have tables of different sizes: a broadcast can be legal for one unit and not for another
+            'sizes': [draw(st.sampled_from([40, 40, 21, 6, 39])) for _ in hosted]}
 
 
 def strategy(tier):
@@ -97,9 +104,17 @@ def run_case(case):
             self.set_calls += 1
             return ModbusSlaveContext.setValues(self, *a, **k)
 
-    ctx = c09.make_context(single, hosted, LAY, Counting)
     units = [0] if single else list(hosted)
-    models = dict((u, model.SlaveModel(LAY)) for u in units)
+    sizes = case.get('sizes') or [40] * len(units)
+    lays = dict((u, _layout(sizes[i % len(sizes)])) for i, u in enumerate(units))
+    from pymodbus.datastore import ModbusServerContext
+    if single:
+        ctx = ModbusServerContext(slaves=model.make_slave(lays[0], Counting), single=True)
+    else:
+        ctx = ModbusServerContext(slaves=dict((u, model.make_slave(lays[u], Counting)) for u in units), single=False)
+    models = dict((u, model.SlaveModel(lays[u])) for u in units)
+    if len(set(sizes[:len(units)])) > 1:
+        labels.append('units-differ-in-size')
     exp_sets = dict((u, 0) for u in units)
     frames = []
     expect = []      # per step: list of acceptable response PDUs (bytes) or None for silence; 'gw' marks optional gateway
